@@ -22,7 +22,7 @@ VERIF = os.path.dirname(os.path.dirname(os.path.dirname(os.path.abspath(__file__
 
 # repairs present in /repo (identifiers of spec/Persister.tla: FP1 InMemoryPersister.load_checkpoint returns a private copy,
 # FP2 both persisters raise the same exception class when the checkpoint does not exist)
-FIXES = []
+FIXES = ['FP1', 'FP2']      # repaired in /repo: b77924b (FP1), 64a0aad (FP2)
 DEVIATIONS = ['D14a', 'D14b']
 KINDS = ['int', 'str', 'uuid']
 INVS = ['C14_AbsMem', 'C14_AbsFiles', 'C14_Contract', 'C14_StoreContracts', 'C14_ImplContracts', 'C14_Equivalent', 'C14_FileNames']
